@@ -40,6 +40,14 @@ func (o *Obligation) smt(withModel bool) string {
 	sb.WriteString(o.Goal.S)
 	sb.WriteString("))\n(check-sat)\n")
 	if withModel {
+		if len(o.Witness) > 0 {
+			sb.WriteString("(get-value (")
+			for _, w := range o.Witness {
+				sb.WriteString(w.T.S)
+				sb.WriteString(" ")
+			}
+			sb.WriteString("))\n")
+		}
 		sb.WriteString("(get-model)\n")
 	}
 	return sb.String()
@@ -149,6 +157,7 @@ func solveOne(o *Obligation, text, file string, timeoutSec int, st *SolveStats, 
 				rest = rest[i+1:]
 			}
 			o.Model = rest
+			o.Values = parseValues(rest, o.Witness)
 			return
 		default:
 			// unknown / timeout / error: try the next solver
@@ -165,6 +174,80 @@ func solveOne(o *Obligation, text, file string, timeoutSec int, st *SolveStats, 
 func truncate(s string, n int) string {
 	if len(s) > n {
 		return s[:n] + "..."
+	}
+	return s
+}
+
+// parseValues reads the answer of (get-value (t1 ... tn)): ((t1 v1) ... (tn vn)).
+func parseValues(out string, ws []WitnessTerm) map[string]string {
+	if len(ws) == 0 {
+		return nil
+	}
+	out = strings.TrimSpace(out)
+	if !strings.HasPrefix(out, "((") {
+		return nil
+	}
+	// split the top-level list into its pair elements
+	res := map[string]string{}
+	depth := 0
+	start := -1
+	idx := 0
+	for i := 0; i < len(out); i++ {
+		switch out[i] {
+		case '|':
+			// quoted symbol: skip to the closing bar
+			j := strings.IndexByte(out[i+1:], '|')
+			if j < 0 {
+				return res
+			}
+			i += j + 1
+		case '(':
+			depth++
+			if depth == 2 {
+				start = i
+			}
+		case ')':
+			if depth == 2 && start >= 0 && idx < len(ws) {
+				pair := out[start+1 : i]
+				// the value is the last s-expression of the pair; the term is a known prefix
+				term := ws[idx].T.S
+				val := strings.TrimSpace(pair)
+				if strings.HasPrefix(val, term) {
+					val = strings.TrimSpace(val[len(term):])
+				} else {
+					// solvers may reprint the term; take the last token / s-expr
+					val = lastSexpr(val)
+				}
+				res[ws[idx].Name] = val
+				idx++
+				start = -1
+			}
+			depth--
+			if depth == 0 {
+				return res
+			}
+		}
+	}
+	return res
+}
+
+func lastSexpr(s string) string {
+	s = strings.TrimSpace(s)
+	if strings.HasSuffix(s, ")") {
+		d := 0
+		for i := len(s) - 1; i >= 0; i-- {
+			if s[i] == ')' {
+				d++
+			} else if s[i] == '(' {
+				d--
+				if d == 0 {
+					return s[i:]
+				}
+			}
+		}
+	}
+	if i := strings.LastIndexAny(s, " \t\n"); i >= 0 {
+		return s[i+1:]
 	}
 	return s
 }
